@@ -90,7 +90,9 @@ func reorder(funcs []*provider, initF *provider) ([]*provider, error) {
 		for _, t := range noNoType(fm.flows[returnParams]) {
 			availableUp.Add(t, i, fm)
 		}
-		if fm.group == staticGroup && !fm.reorder {
+		if (fm.group == staticGroup || fm.group == invokeGroup) && !fm.reorder {
+			// the invoke function ends the static set: providers that run when the
+			// chain is invoked must stay behind it
 			lastStatic = i
 		}
 	}
